@@ -50,6 +50,9 @@ def gen_mesh_cfg(rng, max_order):
         nx, ny = min(nx, 3), min(ny, 3)
     A = np.eye(2) + rng.normal(size=(2, 2)) * 0.15
     return {'nx': nx, 'ny': ny, 'order': order, 'affine': A.tolist(), 'shift': rng.normal(size=2).tolist(),
+            # how the mesh names its element blocks: the single-material factories integrate over all elements
+            # whatever the block dictionary says (one block, a partition, only an inclusion, overlapping, none)
+            'blocks_style': str(rng.choice(['full', 'full', 'partition', 'partial', 'overlap', 'none'])),
             'jitter': float(rng.uniform(0, 0.15)), 'jseed': int(rng.integers(0, 2**31)),
             'quad_extra': int(rng.integers(0, 3))}
 
@@ -199,7 +202,20 @@ def build_mesh(L, m):
         'right': Surface.create_edges(jnp.asarray(c), conns, lambda xy: jnp.all(xy[:, 0] > 1 - tol)),
         'bottom': Surface.create_edges(jnp.asarray(c), conns, lambda xy: jnp.all(xy[:, 1] < tol)),
         'top': Surface.create_edges(jnp.asarray(c), conns, lambda xy: jnp.all(xy[:, 1] > 1 - tol))}
-    blocks = {'block': jnp.arange(conns.shape[0])}
+    ne = int(conns.shape[0])
+    style = m.get('blocks_style', 'full')
+    rb = np.random.Generator(np.random.PCG64(int(m['jseed']) + 5))
+    if style == 'partition' and ne >= 2:
+        cut = int(rb.integers(1, ne))
+        blocks = {'a': jnp.arange(cut), 'b': jnp.arange(cut, ne)}
+    elif style == 'partial' and ne >= 2:
+        blocks = {'inclusion': jnp.asarray(np.sort(rb.choice(ne, size=max(1, ne // 3), replace=False)))}
+    elif style == 'overlap' and ne >= 2:
+        blocks = {'all': jnp.arange(ne), 'again': jnp.asarray(np.sort(rb.choice(ne, size=max(1, ne // 2), replace=False)))}
+    elif style == 'none':
+        blocks = None
+    else:
+        blocks = {'block': jnp.arange(ne)}
     mesh = Mesh.construct_mesh_from_basic_data(jnp.asarray(c), conns, blocks, {k: jnp.asarray(v) for k, v in nodeSets.items()}, sideSets)
     if m['order'] > 1:
         mesh = Mesh.create_higher_order_mesh_from_simplex_mesh(mesh, m['order'], createNodeSetsFromSideSets=True)
